@@ -228,6 +228,27 @@ func runSeq(run *hx.Run, seq int, ops []dbx.Op, gen func() (dbx.Op, bool), repli
 			}
 			or.Ops = done
 			or.Observe(i, op, res, pre, post, db)
+			if res != "panic" {
+				// reads are reads: the queries the service and the scheduler issue between two commands leave the
+				// replicated state as it is (a read is served by one replica only)
+				if _, pl := dbx.LookupAll(db, post, lookKeys, lookAddrs); !pl {
+					run.Count("c03:reads_checked")
+					after := dbx.TakeDump(db)
+					if after.Canon() != post.Canon() {
+						cp := make([]dbx.Op, len(done))
+						copy(cp, done)
+						why := "the state of the replica changed while it answered queries: " + firstDiff(post.Canon(), after.Canon())
+						c03fail(run, seq, i, done, "read-changes-state", why)
+						if fmt.Sprint(after.ShardImage.ReplicasToKill) != fmt.Sprint(post.ShardImage.ReplicasToKill) {
+							run.Violate(hx.Violation{Property: "C11", Clause: "kill_while_reported", Signature: "kill-record-lost-by-a-read", What: why, Seq: seq, OpIndex: i, Ops: cp})
+						}
+						if fmt.Sprint(after.Requests) != fmt.Sprint(post.Requests) || fmt.Sprint(after.Outgoing) != fmt.Sprint(post.Outgoing) {
+							run.Violate(hx.Violation{Property: "C10", Clause: "only_addressee", Signature: "mailbox-changed-by-a-read", What: why, Seq: seq, OpIndex: i, Ops: cp})
+						}
+						post = after
+					}
+				}
+			}
 			if replicas && res != "panic" {
 				// every kind of query, after every command (keeps any read-side cache of this replica warm); one time in
 				// four the answers are compared with those of a replica freshly restored from this one's snapshot
